@@ -4,7 +4,8 @@ One op line = one response class with its constructor arguments, one request, on
 
     gw_wsgi|gw_asgi <fault> <status> <headers> <cookies> <kind> <kind arguments…>
 
-    fault    n (none) | d<k> client disconnect | p<k> the body producer raises at item k
+    fault    n (none) | d<k> client disconnect | p<k> the body producer raises at item k (file: the file has
+             gone since the response was constructed and cannot be opened)
              | s<k> call number k of send / start_response raises
     headers  N | L:k:v:k:v…                      the `headers=` dict (code points)
     cookies  N | name:value:domain:path:maxage:httponly:secure:samesite;…      (set_cookie calls)
@@ -392,6 +393,9 @@ def _build(rec, mod, producer_fault):
         if rec["download_name"] is not None:
             kw["download_name"] = rec["download_name"]
         resp = mod.FileResponse(path, stat_result=st, chunk_size=rec["chunk"], **kw)
+        if producer_fault is not None:
+            # the "producer" of a file answer is the file: it has gone since the response was constructed
+            resp.filepath = path + ".gone"
     else:
         raise ValueError(kind)
     for c in rec["cookies"]:
@@ -439,9 +443,10 @@ def _pairs_text(pairs):
     return "&".join(sorted(out)) if out else "-"
 
 
-def run_wsgi(rec):
+def run_wsgi(rec, resp=None):
     kind, k = fault_of(rec)
-    resp = build(rec, wsgi_responses, k if kind == "p" else None)
+    if resp is None:
+        resp = build(rec, wsgi_responses, k if kind == "p" else None)
     environ = {"REQUEST_METHOD": "GET", "wsgi.url_scheme": "http", "SERVER_NAME": "testserver", "SERVER_PORT": "80",
                "PATH_INFO": "/", "SCRIPT_NAME": "", "QUERY_STRING": ""}
     if rec["kind"] == "file":
@@ -513,9 +518,10 @@ def run_wsgi(rec):
     return " ".join(events) if events else "-"
 
 
-def run_asgi(rec):
+def run_asgi(rec, resp=None):
     kind, k = fault_of(rec)
-    resp = build(rec, asgi_responses, k if kind == "p" else None)
+    if resp is None:
+        resp = build(rec, asgi_responses, k if kind == "p" else None)
     headers = []
     method = "GET"
     if rec["kind"] == "file":
@@ -963,7 +969,7 @@ def all_faults(iface, rec, rng=None, cap=None):
     else:
         ds = list(range(0, n + 1)) if streaming else [0, 1]
         ss = list(range(0, n))
-    ps = list(range(0, items + 1)) if streaming else []
+    ps = list(range(0, items + 1)) if streaming else ([0] if rec["kind"] == "file" else [])
     if rec["kind"] == "sse":
         # one fault at a time: the producer fault comes before the first event that cannot be encoded
         cs = rec.get("charset") or "utf-8"
@@ -1084,7 +1090,44 @@ def extra(rng, tier):
     }
     for name, rec in probes.items():
         obs[name] = {iface: pretty(impl(mk(iface, "n", rec)))[:240] for iface in ("wsgi", "asgi")}
-    return {"violations": [], "observations": obs}
+    # one response object answering two requests (a response IS an application: `app = PlainTextResponse("hi")`):
+    # whatever happened to the first client - served, gone mid-stream, failing send - the second conversation
+    # must be legal and complete again.  Judged by the oracle alone (the model describes one call).
+    violations = []
+    reuse = {
+        "empty": dict(status=204, headers=[], cookies=[], kind="empty"),
+        "small": dict(status=200, headers=[("X-A", "1")], cookies=[{"name": "a", "value": "1"}], kind="small", cls="plain",
+                      content="hello", media_type=None, charset=None),
+        "stream": dict(status=200, headers=[], cookies=[], kind="stream", content_type=None,
+                       chunks=[b"one", b"two", b"three", b"four"]),
+        "sse": dict(status=200, headers=[], cookies=[], kind="sse", charset=None,
+                    events=[[("data", "a")], [("data", "b")], [("data", "c")]]),
+    }
+    runs = 0
+    for name, base in reuse.items():
+        for iface in ("wsgi", "asgi"):
+            mod, run = (wsgi_responses, run_wsgi) if iface == "wsgi" else (asgi_responses, run_asgi)
+            for first in ("n", "d0", "d1", "d2", "d3", "s1"):
+                if iface == "wsgi" and base["kind"] == "sse" and first not in ("n", "d0"):
+                    continue      # closing the WSGI relay mid-stream is C06's subject
+                try:
+                    line1, line2 = mk(iface, first, base), mk(iface, "n", base)
+                    rec1, rec2 = parse_line(line1), parse_line(line2)
+                    resp = build(rec2, mod, None)
+                    out1 = with_alarm(20, run, rec1, resp)
+                    out2 = with_alarm(20, run, rec2, resp)
+                except OpTimeout:
+                    out1, out2 = "?", "hang"
+                except _Ctor:
+                    continue
+                runs += 1
+                why = oracle(line2, out2)
+                if why:
+                    violations.append({"line": "reuse %s %s first=%s" % (iface, name, first),
+                                       "out": "first: %s | second: %s" % (pretty(out1)[:200], pretty(out2)[:200]),
+                                       "why": "second request on the same response object (first: %s): %s" % (first, why)})
+    obs["reuse_runs"] = runs
+    return {"violations": violations, "observations": obs}
 
 
 def pretty(out):
